@@ -148,6 +148,8 @@ def ref_arg(sig, a, b, notes):
             notes.append("variance")
         return a == b
     if kind(b) == "w":
+        if kind(a) == "w" and a.bound is None and b.bound is not None:
+            notes.append("star-target")     # the variable was bound to None and re-assigned later
         if kind(a) != "w" or a.bound is None or b.bound is None:
             return False
         if VAR(a.variance) != VAR(b.variance):
@@ -227,6 +229,9 @@ def judge(t1, t2, fac, same_type, res):
             if "variance" in allnotes:
                 return (SIG_VARIANCE, "projections of different variance were unified: substituting back gives %s"
                         % export.short(back)), "bad"
+            if "star-target" in allnotes:
+                return (SIG_NONE, "a star projection of the target met a projection of the pattern (its variable was "
+                        "bound to None and re-assigned later): substituting back gives %s" % export.short(back)), "bad"
             if any(weak_reassigned(sig, x, t2) for x in targets):
                 return (SIG_REASSIGNED, "a bounded variable left open at one position is assigned at another: "
                         "substituting back gives %s" % export.short(back)), "bad"
